@@ -140,8 +140,9 @@ def build_doc(struct, toks, sep, cif2, header):
         return head + 'data_b' + sep + 'loop_' + sep + '_a' + S(v[0]) + v[0] + S(v[1]) + v[1] + '\n', \
             {'b': {'loops': [[('_a',), [(a[0],), (a[1],)]]], 'frames': {}}}
     if struct == 'loop2x1':
-        return head + 'data_b' + sep + 'loop_' + sep + '_a' + sep + '_b' + S(v[0]) + v[0] + S(v[1]) + v[1] + sep + '_z 1\n', \
-            {'b': {'loops': [[('_a', '_b'), [(a[0], a[1])]], [('_z',), [(('s', '1', 0),)]]], 'frames': {}}}
+        # the second name is a proper prefix of the first
+        return head + 'data_b' + sep + 'loop_' + sep + '_ab' + sep + '_a' + S(v[0]) + v[0] + S(v[1]) + v[1] + sep + '_z 1\n', \
+            {'b': {'loops': [[('_ab', '_a'), [(a[0], a[1])]], [('_z',), [(('s', '1', 0),)]]], 'frames': {}}}
     def A(tok):
         return sep if tok.endswith('\n;') else ''      # a text field is followed by whitespace
     if struct == 'list':
@@ -219,6 +220,8 @@ def work(chunk, cif2, tier):
                 if '\n' not in sep and (len(toks[0][2]) > 1000 or len(toks[1][2]) > 1000):
                     continue        # a long token gets a line of its own (lines must stay within 2048 characters)
                 text, exp = build_doc(struct, toks, sep, cif2, header)
+                if header == 'noeol':
+                    text = text[:-1]        # the input ends with the last token, without a line terminator
                 if max(len(l) for l in text.split('\n')) > 2048:
                     continue
                 opts = '' if (cif2 and header) else ('p2=1' if cif2 else ('p2=-1' if header else ''))
@@ -344,6 +347,8 @@ def main():
                 jobs.append((struct, i, seps, True))
             # documents without the version comment (CIF 1.1 by default; CIF 2.0 when preferred) for one structure
         jobs += [('item2', i, [' '], False) for i in range(len(T))]
+        # documents that end with their last token (no final line terminator)
+        jobs += [(st, i, [' '], 'noeol') for st in ('item2', 'loop1x2') for i in range(len(T))]
         summary['cif2' if cif2 else 'cif1.1'] = {'tokens': len(T), 'structures': len(structs)}
         for res in pmap(work, chunked(jobs, max(1, len(jobs) // (NPROC * 6))), (cif2, tier)):
             if isinstance(res, dict):
